@@ -498,4 +498,13 @@ example : okVal (bindMultiAsIs P7 Cfg.default tyDef (.struct (zeroFs tyDef)) src
 example : Spec.specMulti P7 Cfg.default tyDef (.struct (zeroFs tyDef)) srcsQH (.ok (.struct [.int 300])) = true := by decide
 example : Spec.specMulti P7 Cfg.default tyDef (.struct (zeroFs tyDef)) srcsQH (.ok (.struct [.int 7])) = false := by decide
 
+/-- no source whose tag occurs in the type takes part: the destination must come out as it went in (review C04-2:
+    a type with a query tag only, bound from a cookie source - a stray 999 over the 5 it held is rejected) -/
+def tyQOnly : List Fld :=
+  [({ name := B "A", exported := true, anon := false, tags := [B "a", [], [], [], []], dflt := [] }, .prim (.int 0))]
+theorem specMulti_untouched_witness :
+    Spec.specMulti P7 Cfg.default tyQOnly (.struct [.int 5]) [{ kind := .cookie, kvs := [] }] (.ok (.struct [.int 999])) = false ∧
+    Spec.specMulti P7 Cfg.default tyQOnly (.struct [.int 5]) [{ kind := .cookie, kvs := [] }] (.ok (.struct [.int 5])) = true := by
+  decide
+
 end Rivaas.C04
